@@ -4,7 +4,7 @@ From RL4CO Require Import Base.Num Base.EnvSig Spec.Routes Spec.VRPFeatures Env.
 Import ListNotations.
 Open Scope Z_scope.
 
-(* For the shipped mask (R = false) and for the repaired one (R = true): for every instance in the documented format
+(* For the mask as it is (R = true, [<=] time comparisons since /repo 9b8ead8) and for the former strict one (R = false): for every instance in the documented format
    and EVERY action list whose actions each lie in the mask of the state they are taken in, once the row reports
    done the action list visits every customer exactly once, uses only existing nodes, and every route (maximal
    depot-free segment, the last one included even when the list does not end at the depot) satisfies the problem
@@ -31,8 +31,8 @@ Example C01_mtvrp_nonvacuous :
               tlo := [0; 0; 10; 0]; thi := [200; 50; 60; 90]; svc := [0; 2; 2; 2];
               dist := [[0; 5; 9; 16]; [5; 0; 4; 11]; [9; 4; 0; 7]; [16; 11; 7; 0]];
               tt := [[0; 5; 9; 16]; [5; 0; 4; 11]; [9; 4; 0; 7]; [16; 11; 7; 0]] |} in
-  mtvrp_wfb i = true /\ adm (E:=MTVRP exact false) i [1; 2; 0; 3]%nat = true /\
-  done (MTVRP exact false) i (run (E:=MTVRP exact false) i [1; 2; 0; 3]%nat) = true /\
-  mask (MTVRP exact false) i (run (E:=MTVRP exact false) i [1]%nat) = [true; false; true; true] /\
-  mask (MTVRP exact false) i (run (E:=MTVRP exact false) i [3]%nat) = [true; false; false; false].
+  mtvrp_wfb i = true /\ adm (E:=MTVRP exact true) i [1; 2; 0; 3]%nat = true /\
+  done (MTVRP exact true) i (run (E:=MTVRP exact true) i [1; 2; 0; 3]%nat) = true /\
+  mask (MTVRP exact true) i (run (E:=MTVRP exact true) i [1]%nat) = [true; false; true; true] /\
+  mask (MTVRP exact true) i (run (E:=MTVRP exact true) i [3]%nat) = [true; false; false; false].
 Proof. vm_compute. auto. Qed.
